@@ -70,7 +70,7 @@ def comps(path):
 
 def node(path, kind, content=b"", target=b"", mt=(1600000000, 0), mode=None, u="root", g="root", cg=None):
     if mode is None:
-        mode = {"File": 0o644, "Dir": 0o755, "Symlink": 0o777}[kind]
+        mode = {"File": 0o644, "Dir": 0o755, "Symlink": 0o777, "Fifo": 0o644}[kind]
     if isinstance(content, str):
         content = content.encode()
     if isinstance(target, str):
@@ -119,9 +119,13 @@ def path_str(p):
     return "/" + "/".join(bytes(c).decode("utf-8", "replace") for c in p)
 
 
-NAMES = ["a", "b", "ab", "a.b", "a-b", "-x", " s", ".h", "é", "éa", "z", "A", "~t", "b0", "d", "e", "0"]
+NAMES = ["a", "b", "ab", "a.b", "a-b", "-x", " s", ".h", "é", "éa", "z", "A", "~t", "b0", "d", "e", "0",
+         # characters that need escaping in JSON, glob metacharacters, a control byte, a non-BMP character
+         'q"t', "b\\s", "n\nl", "[x]*", "\x01c", "\U0001F600"]
 MTIMES = [(1600000000, 0), (1600000001, 123456789), (1600000002, 999999999), (0, 0), (0, 1),
-          (-1, 0), (-2, 500000000), (-86400, 250000000), (2000000000, 5), (1, 0)]
+          (-1, 0), (-2, 500000000), (-86400, 250000000), (2000000000, 5), (1, 0),
+          # beyond 2^31 and 2^32 seconds, beyond what fits in 64-bit nanoseconds (year 2262), near the file system's limit
+          (4000000000, 0), (4294967296, 1), (9300000000, 0), (15000000000, 999999999)]
 OWNERS = [("root", "root"), ("daemon", "daemon"), ("root", "daemon"), ("bin", "bin"), ("nobody", "nogroup"),
           ("root", "root"), ("root", "root")]
 
@@ -394,6 +398,28 @@ def age_scenario(s):
             s["steps"].insert(i + 1, {"op": "legacy_tails"})
             s["tags"] = list(s.get("tags", [])) + ["legacy-tails"]
             break
+    return s
+
+
+def odd_source(s):
+    """One scenario in seven (chosen by its id) has named pipes in its source trees: a backup cannot
+    store them and passes over them without a word; everything else is judged as usual."""
+    if s.get("mode", "clean") not in ("clean", "fault", "big") or int(hashlib.sha1(("pipe" + s["id"]).encode()).hexdigest(), 16) % 7:
+        return s
+    hit = False
+    for st in s["steps"]:
+        if st.get("op") == "tree" and "tree" in st:
+            have = {tuple(tuple(c) for c in n["p"]) for n in st["tree"]}
+            dirs = [n for n in st["tree"] if n["k"] == "Dir"][:2]
+            for d in dirs:
+                p = d["p"] + [list(b"m.pipe")]
+                if tuple(tuple(c) for c in p) not in have:
+                    n = node("/x", "Fifo")
+                    n["p"] = p
+                    st["tree"].append(n)
+                    hit = True
+    if hit:
+        s["tags"] = list(s.get("tags", [])) + ["pipes-in-source"]
     return s
 
 
